@@ -6,6 +6,7 @@ import (
 	"os"
 	"os/exec"
 	"path/filepath"
+	"strconv"
 	"strings"
 
 	"github.com/spyzhov/ajson"
@@ -103,7 +104,15 @@ func streamCli(o *Out, r *Rng, tier string) {
 		}
 		var input []byte
 		for k := 0; k < nl; k++ {
-			input = append(input, r.Pick(cliDocs)...)
+			if r.Chance(6) {
+				// a long line: around the usual reader buffer sizes (4 KiB bufio.Reader, 64 KiB bufio.Scanner token limit)
+				n := r.Pick([]string{"4080", "4090", "4096", "4100", "5000", "65520", "65536", "70000"})
+				ln, _ := strconv.Atoi(n)
+				input = append(input, []byte(`{"a":"`+strings.Repeat("x", ln)+`"}`)...)
+				o.Stat("cli.long-line")
+			} else {
+				input = append(input, r.Pick(cliDocs)...)
+			}
 			if k < nl-1 || r.Bool() {
 				if r.Chance(10) {
 					input = append(input, '\r')
